@@ -13,6 +13,7 @@ RULES = {
     "H3": "(thorough) no target of the workspace writes the pub atomic fields of PriceLevelStatistics outside statistics.rs",
     "H4": "one event, one record, also with many threads: an order is handed to exactly one caller (OrderQueue::pop / ::remove return the payload of their own DashMap::remove; nobody else touches the map or the tickets), so a removal or an execution cannot be recorded by two threads",
     "H0": "coverage",
+    "H5": "every PriceLevel value is constructed with a statistics object of its own (not a clone of another level's shared handle)",
 }
 
 NAMED = {"orders_added", "orders_removed", "quantity_executed", "value_executed"}
@@ -101,6 +102,59 @@ def run(ctx, chk):
         chk.require(okp, "H1", key + ":price", ev[0][5], "record_execution price %s is not the level's price (the price the transaction of the same fill is reported at)" % short(p), describe_path(r))
     chk.require(nvis >= 10, "H0", fn, b.span, "%d maker visits analysed" % nvis)
 
+    # ---------------- H1 for the other (discovered) mutators, per level value they act on
+    from .c01 import segments
+    n_extra = 0
+    for name in L.mutators():
+        if "::" not in name:
+            continue            # add_order / update_order / match_order: the rules above
+        for V, sfx in L.views(name):
+            bx, resx, _ = V.paths(name)
+            for r in resx:
+                if r.kind not in ("return", "backedge") or r.flags:
+                    continue
+                for segname, lo, hi in segments(r):
+                    seg = r.trace[lo:hi]
+                    ids = set(id(e) for e in seg)
+                    if any(e[0] == "eff" and e[1] in ("STAT.record_execution", "TX.new") for e in seg):
+                        continue    # a maker visit of an inlined match: the match rules' business
+                    qev = [x for x in V.queue_events(r.trace, r.facts) if id(x[2]) in ids]
+                    outs = len([x for x in qev if x[0] in ("take", "rtake", "unpark")])
+                    ins = len([x for x in qev if x[0] in ("push", "park", "rpush")])
+                    arrivals, departures = max(0, ins - outs), max(0, outs - ins)
+                    ev = [e for e in seg if e[0] == "eff" and e[1].startswith("STAT.") and e[2] and V.self_field(e[2][0]) == V.stats_field]
+                    added = len([e for e in ev if e[1] == "STAT.record_order_added"])
+                    removed = len([e for e in ev if e[1] == "STAT.record_order_removed"])
+                    n_extra += 1
+                    chk.require(added == arrivals and removed == departures, "H1", "%s%s:%s" % (bx.defp, sfx, LR.first_label(r)), bx.span,
+                                "%d order(s) enter and %d leave this level's queue on the path, but its statistics record %d added / %d removed" % (
+                                    arrivals, departures, added, removed), describe_path(r))
+    chk.stats["extra_mutator_segments"] = n_extra
+    # ---------------- H5 every level value is built with a statistics object of its own
+    level_def = L.level_adt["def"]
+    n_ctor = 0
+    for d, bd in sorted(db.bodies.items()):
+        if bd.kind == "Closure" or not any(s["k"] == "assign" and s["rv"]["k"] == "agg" and s["rv"].get("adt") == level_def
+                                            for blk in bd.blocks for s in blk["stmts"]):
+            continue
+        w5 = L.walker(max_depth=2)
+        w5.no_inline = lambda p: "PriceLevelStatistics" not in p
+        try:
+            res5 = w5.walk(bd)
+        except Exception:
+            continue
+        for r in res5:
+            aggs = [t for v in [r.value] + list(r.state.heap.values()) for t in subterms(v)
+                    if isinstance(t, tuple) and t and t[0] == "agg" and t[1] == level_def]
+            for t in aggs:
+                st_t = dict(t[3]).get(L.stats_field)
+                n_ctor += 1
+                shared = [x for x in subterms(st_t) if isinstance(x, tuple) and x and (
+                    (x[0] == "field" and x[3] == L.stats_field) or (x[0] == "f" and len(x) == 3 and x[2] == L.stats_field))]
+                chk.require(not shared, "H5", "%s:fresh-statistics" % d, bd.span,
+                            "a PriceLevel is built around another level's statistics object (%s): both levels then count each other's events" % short(st_t)[:120],
+                            describe_path(r))
+    chk.require(n_ctor >= 1, "H0", "constructors-found", "", "no PriceLevel construction site analysed")
     # ---------------- H4 single hand-out
     from ..queue import QueueAnalysis
     Q = QueueAnalysis(ctx)
@@ -156,6 +210,11 @@ def run(ctx, chk):
     # who else writes the four named counters inside the crate
     cg = ctx.cg
     allowed_writers = {"new", "reset", "record_order_added", "record_order_removed", "record_execution", "from_str", "deserialize", "visit_map", "default"}
+    # code the property's histories can run: everything reachable from the methods and trait impls of PriceLevel
+    from ..tables import base_type
+    level_roots = [d for d, bd in db.bodies.items() if bd.kind != "Closure" and base_type(bd.impl_self or "") == "PriceLevel"]
+    level_reach = cg.reach(level_roots)
+    chk.require(len(level_roots) >= 20, "H0", "level-roots", "", "only %d PriceLevel bodies found" % len(level_roots))
     for d, effs in cg.direct.items():
         body = db.bodies[d]
         owner = body
@@ -169,8 +228,11 @@ def run(ctx, chk):
             fld = _recv_field(body, t)
             if fld in NAMED:
                 in_stats = "statistics" in (owner.impl_self or "") or "PriceLevelStatistics" in (owner.impl_self or "")
-                chk.require(in_stats and owner.name in allowed_writers, "H2", "%s:%s.%s" % (d, fld, m), span,
-                            "statistics counter %s written by %s in %s" % (fld, m, d))
+                # a further operation of the statistics object itself (like `reset`: a merge, an import) is outside the
+                # property's histories as long as no level operation reaches it
+                own_api = in_stats and owner.vis == "pub" and owner.defp not in level_reach and d not in level_reach
+                chk.require((in_stats and owner.name in allowed_writers) or own_api, "H2", "%s:%s.%s" % (d, fld, m), span,
+                            "statistics counter %s written by %s in %s%s" % (fld, m, d, " (reachable from the level's operations)" if in_stats else ""))
                 if m not in ("fetch_add",) and owner.name not in ("reset", "new", "from_str", "visit_map", "deserialize"):
                     chk.fail("H2", "%s:%s.%s:not-rmw" % (d, fld, m), span, "counter %s updated with %s (lost updates under contention)" % (fld, m))
     if ctx.tier == "thorough":
